@@ -41,6 +41,11 @@ pub fn build_and_run(case: &ProgCase, features: &[&str]) -> Result<Result<Parsed
     let a = farm::anchor(features)?;
     let bitvec = features.contains(&"bit-vec");
     let src = case.prog.source(bitvec);
+    if let Some(dir) = std::env::var_os("VERIF_DUMP_SRC") {
+        // debugging aid for replays: keep the generated source
+        let _ = std::fs::create_dir_all(&dir);
+        let _ = std::fs::write(std::path::Path::new(&dir).join("case.rs"), &src);
+    }
     let out = farm::compile(&a, &src, true)?;
     if !out.success {
         // judge by the twin: the same definitions without the TypeInfo derive
@@ -49,7 +54,10 @@ pub fn build_and_run(case: &ProgCase, features: &[&str]) -> Result<Result<Parsed
             let sig = if out.proc_macro_panicked() { "derive-panic" } else { classify_compile_failure(&case.prog) };
             return Ok(Err(format!("[sig:{sig}] the TypeInfo derive rejects a definition that compiles without it: {}", out.summary())));
         }
-        return Err(format!("harness bug: generated program does not compile even without TypeInfo: {} || twin: {}", out.summary(), twin.summary()));
+        if let Some(dir) = std::env::var_os("VERIF_DUMP_SRC") {
+            let _ = std::fs::write(std::path::Path::new(&dir).join("harness_bug.rs"), &src);
+        }
+        return Err(format!("generator-invalid: generated program does not compile even without TypeInfo: {} || twin: {}", out.summary(), twin.summary()));
     }
     let bin = out.bin.clone().ok_or("no binary")?;
     let args: Vec<String> = case.entropies.iter().map(|e| if e.is_empty() { "00".to_string() } else { vsupport::hex(e) }).collect();
